@@ -340,6 +340,9 @@ func runC01(e *Env) {
 		e.R.Transition(int64(len(c.Insts)))
 	})
 	e.R.AddPart(ev.Part{Name: "cli-slice", Enumerated: "real binary: 28 keys x {1,b3,#4,5,9} x {no bass,3,b7} documents of all 46 look-ups; key by --key flag or by first instance alternately", Executions: int64(len(cjs) * len(lookups)), Exhaustive: true})
+
+	// (d) long documents: the key in force, the look-up and the octave of the 100th chord
+	runLong(e, 16, func(c *playCase) { c01Doc(e, m, c) })
 }
 
 func mustPitches(m *refplay.Model, key, degree, symbol, bass string) []int {
